@@ -277,6 +277,8 @@ class ResponseStream:
         self.state = CLEAN
         self.pending = None
         self.error = None
+        self._need = 0
+        self._stale = False
 
     def feed(self, data=b"", eof=False):
         if data:
@@ -285,6 +287,11 @@ class ResponseStream:
             self.eof = True
         if self.state == ERROR:
             return
+        if self.state == PARTIAL and self._need and len(self.buf) < self._need and not self.eof:
+            self._stale = True      # a Content-Length body that is still short: nothing new can be decided yet
+            return
+        self._need = 0
+        self._stale = False
         while self.pos < len(self.buf):
             k = len(self.responses)
             method = self.methods[k] if self.methods and k < len(self.methods) else None
@@ -298,10 +305,24 @@ class ResponseStream:
                 self.pos = np
                 continue
             self.state, self.pending = state, msg
+            if state == PARTIAL and msg is not None and msg.framing == "length":
+                self._need = self.pos + msg.head_len + int(msg.get("content-length").split(",")[0])
             return
         self.state, self.pending = CLEAN, None
 
-    def result(self):
+    def result(self, refresh=True):
+        """refresh=False: cheap view for a polling loop (the partial body of a still short Content-Length response
+        and `rest` are not brought up to date)."""
+        if self._stale and not refresh:
+            return {"responses": self.responses, "state": self.state, "pending": self.pending, "rest": b"", "error": self.error}
+        if self._stale:
+            self._stale = False
+            k = len(self.responses)
+            method = self.methods[k] if self.methods and k < len(self.methods) else None
+            try:
+                self.state, self.pending, _ = parse_response_at(self.buf, self.pos, self.eof, method)
+            except HttpRefError as ex:
+                self.state, self.error, self.pending = ERROR, str(ex), None
         return {"responses": self.responses, "state": self.state, "pending": self.pending,
                 "rest": bytes(self.buf[self.pos:]), "error": self.error}
 
@@ -343,3 +364,25 @@ def parse_request(buf):
     msg.framing = "nobody"
     msg.raw_len = body_at
     return msg, body_at
+
+
+def parse_request_head(buf):
+    """Parse only the head of the request at the front of buf.  Returns (msg, head_len, framing, length) with
+    msg.body empty, or None while the head is incomplete.  For servers that answer before the body has arrived."""
+    sh = _split_head(buf, 0)
+    if sh is None:
+        return None
+    lines, body_at = sh
+    m = REQUEST_LINE.match(lines[0])
+    if not m:
+        raise HttpRefError("bad-request-line", repr(lines[0][:80]))
+    msg = Message()
+    msg.kind = "request"
+    msg.method = m.group(1).decode("ascii")
+    msg.target = m.group(2).decode("ascii")
+    msg.version = m.group(3).decode("ascii")
+    msg.headers = _parse_headers(lines[1:])
+    msg.head_len = body_at
+    kind, length = _framing(msg)
+    msg.framing = kind or "nobody"
+    return msg, body_at, kind, length
